@@ -563,6 +563,17 @@ func runCmpTypes(c *Ctx) {
 	for i, n := 0, c.N(60, 260); i < n; i++ {
 		specs = append(specs, g.Gen(1+c.Rng.Intn(3)))
 	}
+	cmpTypesUniverse(c, specs)
+	// Types whose components are complex, created in seed-shuffled orders: complex ids follow
+	// creation order, the model is structural, so any id-based shortcut in CompareTypes disagrees.
+	for k, n := 0, c.N(4, 16); k < n; k++ {
+		cmpTypesUniverse(c, shuffledComplexUniverse(c))
+	}
+}
+
+// cmpTypesUniverse creates the specs in the given order in a fresh context and compares
+// zed.CompareTypes with the model, and with the order laws, on all pairs and triples.
+func cmpTypesUniverse(c *Ctx, specs []*TSpec) {
 	zc := zed.NewContext()
 	var types []zed.Type
 	var tspecs []*TSpec
@@ -1102,6 +1113,9 @@ func runC05(c *Ctx) {
 	if c.Want("translate") {
 		runTranslate(c)
 	}
+	if c.Want("crossctx") {
+		runCrossCtx(c)
+	}
 	if c.Want("alias") {
 		runAlias(c)
 	}
@@ -1135,6 +1149,11 @@ func replayC05(c *Ctx) {
 		checkHist(c, r.Ops, true)
 	case "union":
 		checkUnion(c, r.Members, r.Perm)
+	case "crossctx":
+		var cc crossCase
+		if json.Unmarshal(c.Replay, &cc) == nil {
+			checkCrossCtx(c, &cc)
+		}
 	case "translate":
 		checkTranslate(c, r.Spec)
 	case "alias":
